@@ -19,6 +19,9 @@ import (
 
 // Script executed against the real code; every step is logged as one trace event (see spec/Trace_NackGen.tla).
 type vfNackScript struct {
+	// Twin (interceptor level): a second interceptor built by the SAME factory receives look-alike traffic of its own (same
+	// SSRCs, other numbers, other gaps); nothing it sees may show in the first one
+	Twin  bool   `json:"twin"`
 	Rev   bool   `json:"rev"` // interceptor level: the options are passed in the opposite order
 	Level string `json:"level"` // "log": receiveLog directly, "icpt": GeneratorInterceptor through its public interface
 	Size  uint16 `json:"size"`
@@ -158,6 +161,18 @@ func vfRunIcpt(t *testing.T, sc *vfNackScript, out *vfWriter) {
 	gate := &vfTickGate{target: ic, arrive: make(chan struct{}), release: make(chan struct{}), done: make(chan struct{})}
 	verifhook.SetGate(gate.hook)
 	defer verifhook.SetGate(nil)
+	var twin interceptor.Interceptor
+	twinReaders := map[uint32]interceptor.RTPReader{}
+	var twinNext []byte
+	if sc.Twin {
+		if twin, err = f.NewInterceptor("twin"); err != nil {
+			t.Fatalf("VERIF-INFRA NewInterceptor (twin): %v", err)
+		}
+		twin.BindRTCPWriter(interceptor.RTCPWriterFunc(func(p []rtcp.Packet, _ interceptor.Attributes) (int, error) {
+			return len(p), nil
+		}))
+		defer func() { _ = twin.Close() }()
+	}
 
 	var mu sync.Mutex
 	var written []vfM
@@ -244,6 +259,12 @@ func vfRunIcpt(t *testing.T, sc *vfNackScript, out *vfWriter) {
 					return copy(buf, b.next), a, nil
 				}))
 			streams[st.S] = b
+			if twin != nil {
+				twinReaders[st.S] = twin.BindRemoteStream(b.info, interceptor.RTPReaderFunc(
+					func(buf []byte, a interceptor.Attributes) (int, interceptor.Attributes, error) {
+						return copy(buf, twinNext), a, nil
+					}))
+			}
 			out.Emit(vfM{"a": "bind", "s": st.S, "nack": st.Nack})
 		case "unbind":
 			if b := streams[st.S]; b != nil {
@@ -262,6 +283,11 @@ func vfRunIcpt(t *testing.T, sc *vfNackScript, out *vfWriter) {
 			}
 			if b == nil {
 				continue
+			}
+			if tr := twinReaders[st.S]; tr != nil && !st.Stale { // the other connection: the same stream, numbers of its own
+				tp := rtp.Packet{Header: rtp.Header{Version: 2, SSRC: st.S, SequenceNumber: st.W*3 + 1000}, Payload: []byte{9}}
+				twinNext, _ = tp.Marshal()
+				_, _, _ = tr.Read(make([]byte, 1500), interceptor.Attributes{})
 			}
 			pkt := rtp.Packet{Header: rtp.Header{Version: 2, SSRC: st.S, SequenceNumber: st.W}, Payload: []byte{1, 2, 3}}
 			raw, _ := pkt.Marshal()
